@@ -164,3 +164,8 @@ func init() {
 	AddControl(Control{ID: "c18-stateful-decoder-table", Prop: "C18", Rule: "C18.stateful", File: "format/id3/id3v2.go",
 		Old: "func decodeToString(e int, b []byte) string {", New: "var sharedUTF8Decoder = unicode.UTF8.NewDecoder()\n\nfunc decodeToString(e int, b []byte) string {", ExpectKey: "format/id3.sharedUTF8Decoder"})
 }
+
+func init() {
+	AddControl(Control{ID: "c06-div-elf-entsize", Prop: "C06", Rule: "C06.div", File: "format/elf/elf.go",
+		Old: "	case SHT_SYMTAB:\n		if entSize == 0 {\n			d.Fatalf(\"symbol table entry size is zero\")\n		}\n", New: "	case SHT_SYMTAB:\n", ExpectKey: "format/elf.elfDecodeSectionHeader$3|div|1"})
+}
